@@ -20,9 +20,10 @@ import (
 // machine on them):
 //
 //	ar arity <N>           -> ok
-//	ar new <max> [pool]    -> e<i>         (pool: WithWorkerPool(P) on the event)
-//	ar hook <e> <max> [sync|pool|inplace]  -> h<i>   (sync: no pool option, the event's pool applies; pool:
-//	                          WithWorkerPool(Q), Q != P; inplace: WithWorkerPool(nil))
+//	ar new <max> [pre] [pool]    -> e<i>   (pre: WithPreTriggerFunc, pool: WithWorkerPool(P) on the event)
+//	ar hook <e> <max> [sync|pool|inplace] [pre]  -> h<i>   (sync: no pool option, the event's pool applies; pool:
+//	                          WithWorkerPool(Q), Q != P; inplace: WithWorkerPool(nil); pre: WithPreTriggerFunc on the hook;
+//	                          log entries E<e>:digits / P<h>:digits as in the `ev` section)
 //	ar unhook <h>
 //	ar trigger <e> <digits>   -> sync [h:digits ...] pool [h:digits ...]
 //	ar link <src> <tgt> | ar unlink <src> | ar tcount <e>
@@ -47,20 +48,42 @@ type arHook struct {
 	count            int
 	alive            bool
 	pool             int // 0 no option (the event's pool applies), 1 own pool Q, 2 forced in place
+	pre              bool
 }
 
 type arEv struct {
-	max    uint64
-	count  int
-	link   *arHook
-	pooled bool
+	max         uint64
+	count       int
+	link        *arHook
+	pooled, pre bool
 }
 
-// arCall is one recorded invocation: which hook, what it received, on the Trigger caller's goroutine or not.
+// arCall is one recorded call: an invocation of hook h (kind ""), or a call of the pre-trigger function of event h
+// (kind "E") / of hook h (kind "P"); what it received; on the Trigger caller's goroutine or not.
 type arCall struct {
+	kind  string
 	h     int
 	s     string
 	async bool
+}
+
+type arID struct {
+	kind string
+	h    int
+}
+
+func (x arID) String() string { return fmt.Sprintf("%s%d", x.kind, x.h) }
+
+func arRank(kind string) int { return map[string]int{"": 0, "E": 1, "P": 2}[kind] }
+
+func sortIDs(l []arID) {
+	sort.SliceStable(l, func(i, j int) bool {
+		if arRank(l[i].kind) != arRank(l[j].kind) {
+			return arRank(l[i].kind) < arRank(l[j].kind)
+		}
+
+		return l[i].h < l[j].h
+	})
 }
 
 // buckets of the expected / observed invocations of one Trigger
@@ -70,7 +93,10 @@ const (
 	arLate        // ran only after P's gate was released
 )
 
-type arWant struct{ h, bucket int }
+type arWant struct {
+	id     arID
+	bucket int
+}
 
 type arWorld struct {
 	oev     []*arEv
@@ -85,6 +111,17 @@ type arWorld struct {
 	bad     []string
 	poolP   *workerpool.WorkerPool
 	poolQ   *workerpool.WorkerPool
+}
+
+// record is what every hook and every pre-trigger function does: log what it received.
+func (a *arWorld) record(kind string, h int, got []int) {
+	async := goid() != a.caller
+	a.mu.Lock()
+	defer a.mu.Unlock()
+	if len(got) != a.n {
+		a.bad = append(a.bad, fmt.Sprintf("%s%d received %d arguments", kind, h, len(got)))
+	}
+	a.log = append(a.log, arCall{kind, h, encode(got), async})
 }
 
 func (a *arWorld) finish() {
@@ -126,6 +163,16 @@ func (a *arWorld) expect(e int, late bool, out *[]arWant) {
 
 			continue
 		}
+		ctx := arSync // the pre-trigger functions run on the goroutine that runs this Trigger
+		if late {
+			ctx = arLate
+		}
+		if oe.pre {
+			*out = append(*out, arWant{arID{"E", e}, ctx})
+		}
+		if h.pre {
+			*out = append(*out, arWant{arID{"P", h.handle}, ctx})
+		}
 		bucket := arSync
 		switch {
 		case late:
@@ -138,7 +185,7 @@ func (a *arWorld) expect(e int, late bool, out *[]arWant) {
 		if h.link >= 0 {
 			a.expect(h.link, bucket != arSync, out)
 		} else {
-			*out = append(*out, arWant{h.handle, bucket})
+			*out = append(*out, arWant{arID{"", h.handle}, bucket})
 		}
 	}
 }
@@ -172,10 +219,11 @@ func (w *world) execAR(f []string) string {
 	}
 	switch f[0] {
 	case "new":
-		pooled := len(f) == 3 && f[2] == "pool"
-		if len(f) != 2 && !pooled {
+		rest := strings.Join(f[2:], " ")
+		if len(f) < 2 || !(rest == "" || rest == "pre" || rest == "pool" || rest == "pre pool") {
 			return "bad-op"
 		}
+		pooled, pre := strings.HasSuffix(rest, "pool"), strings.HasPrefix(rest, "pre")
 		m, err := strconv.ParseUint(f[1], 10, 64)
 		if err != nil {
 			return "bad-op"
@@ -190,12 +238,20 @@ func (w *world) execAR(f []string) string {
 			}
 			opts = append(opts, event.WithWorkerPool(a.poolP))
 		}
+		if pre {
+			e := len(a.events)
+			opts = append(opts, event.WithPreTriggerFunc(arPre[a.n](func(got []int) { a.record("E", e, got) })))
+		}
 		a.events = append(a.events, arNew[a.n](opts...))
-		a.oev = append(a.oev, &arEv{max: m, pooled: pooled})
+		a.oev = append(a.oev, &arEv{max: m, pooled: pooled, pre: pre})
 
 		return fmt.Sprintf("e%d", len(a.events)-1)
 	case "hook":
 		e, ok := num(1)
+		pre := len(f) >= 4 && f[len(f)-1] == "pre"
+		if pre {
+			f = f[:len(f)-1]
+		}
 		if !ok || (len(f) != 3 && len(f) != 4) || e >= len(a.events) {
 			return "bad-op"
 		}
@@ -206,6 +262,10 @@ func (w *world) execAR(f []string) string {
 		var opts []event.Option
 		if m > 0 {
 			opts = append(opts, event.WithMaxTriggerCount(m))
+		}
+		h := len(a.unhooks)
+		if pre {
+			opts = append(opts, event.WithPreTriggerFunc(arPre[a.n](func(got []int) { a.record("P", h, got) })))
 		}
 		pool := 0
 		if len(f) == 4 {
@@ -224,17 +284,8 @@ func (w *world) execAR(f []string) string {
 				return "bad-op"
 			}
 		}
-		h := len(a.unhooks)
-		a.unhooks = append(a.unhooks, a.events[e].Hook(func(got []int) {
-			async := goid() != a.caller
-			a.mu.Lock()
-			defer a.mu.Unlock()
-			if len(got) != a.n {
-				a.bad = append(a.bad, fmt.Sprintf("hook %d received %d arguments", h, len(got)))
-			}
-			a.log = append(a.log, arCall{h, encode(got), async})
-		}, opts...))
-		oh := &arHook{ev: e, handle: h, link: -1, max: m, alive: true, pool: pool}
+		a.unhooks = append(a.unhooks, a.events[e].Hook(func(got []int) { a.record("", h, got) }, opts...))
+		oh := &arHook{ev: e, handle: h, link: -1, max: m, alive: true, pool: pool, pre: pre}
 		a.ohooks = append(a.ohooks, oh)
 		a.ouser = append(a.ouser, oh)
 
@@ -315,7 +366,7 @@ func (w *world) execAR(f []string) string {
 		// the property for the arguments, independent of Lean: every invocation received exactly the call's arguments, in order
 		for _, c := range log {
 			if c.s != f[2] {
-				w.fail("trigger-exactly-once", fmt.Sprintf("Event%d.Trigger(%s): hook %d received %s", a.n, f[2], c.h, c.s),
+				w.fail("trigger-exactly-once", fmt.Sprintf("Event%d.Trigger(%s): %s%d received %s", a.n, f[2], c.kind, c.h, c.s),
 					map[string]string{"oracle": "arguments", "api": api, "mode": "arity-twins"})
 
 				break
@@ -325,31 +376,31 @@ func (w *world) execAR(f []string) string {
 			w.fail("trigger-exactly-once", b, map[string]string{"oracle": "arguments", "api": "event.Trigger", "mode": "arity-twins"})
 		}
 		// observed buckets: synchronous calls in order; the others as sorted sets
-		var got [3][]int
+		var got [3][]arID
 		for i, c := range log {
 			switch {
 			case !c.async && i < nRet:
-				got[arSync] = append(got[arSync], c.h)
+				got[arSync] = append(got[arSync], arID{c.kind, c.h})
 			case !c.async:
-				got[arLate] = append(got[arLate], -1-c.h) // on the caller's goroutine after Trigger returned: impossible
+				got[arLate] = append(got[arLate], arID{"late-on-caller-" + c.kind, c.h}) // on the caller's goroutine after Trigger returned: impossible
 			case i < nOwn:
-				got[arOwn] = append(got[arOwn], c.h)
+				got[arOwn] = append(got[arOwn], arID{c.kind, c.h})
 			default:
-				got[arLate] = append(got[arLate], c.h)
+				got[arLate] = append(got[arLate], arID{c.kind, c.h})
 			}
 		}
 		var wantAll []arWant
 		a.expect(e, false, &wantAll)
-		var want [3][]int
+		var want [3][]arID
 		for _, x := range wantAll {
-			want[x.bucket] = append(want[x.bucket], x.h)
+			want[x.bucket] = append(want[x.bucket], x.id)
 		}
 		for b := arOwn; b <= arLate; b++ {
-			sort.Ints(got[b])
-			sort.Ints(want[b])
+			sortIDs(got[b])
+			sortIDs(want[b])
 		}
 		if fmt.Sprint(got[arSync]) != fmt.Sprint(want[arSync]) {
-			w.fail("trigger-exactly-once", fmt.Sprintf("Event%d.Trigger(e%d,%s): hooks invoked synchronously, in this order, when Trigger returned: %v; the attached synchronous hooks within their limits are %v", a.n, e, f[2], got[arSync], want[arSync]),
+			w.fail("trigger-exactly-once", fmt.Sprintf("Event%d.Trigger(e%d,%s): calls on the caller's goroutine, in this order, when Trigger returned: %v; the attached synchronous hooks within their limits (with the pre-trigger calls E<event> / P<hook> before each hook) give %v", a.n, e, f[2], got[arSync], want[arSync]),
 				map[string]string{"oracle": "sync-calls", "api": api, "mode": "arity-twins"})
 		}
 		if fmt.Sprint(got[arOwn]) != fmt.Sprint(want[arOwn]) || fmt.Sprint(got[arLate]) != fmt.Sprint(want[arLate]) {
@@ -362,14 +413,14 @@ func (w *world) execAR(f []string) string {
 		}
 		w.res.nontrivial = true
 		syncS := make([]string, 0, len(got[arSync]))
-		for _, h := range got[arSync] {
-			syncS = append(syncS, fmt.Sprintf("%d:%s", h, f[2]))
+		for _, x := range got[arSync] {
+			syncS = append(syncS, fmt.Sprintf("%s:%s", x, f[2]))
 		}
-		pooled := append(append([]int(nil), got[arOwn]...), got[arLate]...)
-		sort.Ints(pooled)
+		pooled := append(append([]arID(nil), got[arOwn]...), got[arLate]...)
+		sortIDs(pooled)
 		poolS := make([]string, 0, len(pooled))
-		for _, h := range pooled {
-			poolS = append(poolS, fmt.Sprintf("%d:%s", h, f[2]))
+		for _, x := range pooled {
+			poolS = append(poolS, fmt.Sprintf("%s:%s", x, f[2]))
 		}
 
 		return "sync [" + strings.Join(syncS, " ") + "] pool [" + strings.Join(poolS, " ") + "]"
@@ -416,7 +467,7 @@ func genAR(rng *hx.Rng, n int) []string {
 	ops := []string{fmt.Sprintf("ar arity %d", n)}
 	ne := 2 + rng.Intn(2)
 	for i := 0; i < ne; i++ {
-		ops = append(ops, fmt.Sprintf("ar new %s%s", hx.Pick(rng, []string{"0", "0", "2", "5"}), hx.Pick(rng, []string{"", "", " pool"})))
+		ops = append(ops, fmt.Sprintf("ar new %s%s", hx.Pick(rng, []string{"0", "0", "2", "5"}), hx.Pick(rng, []string{"", "", " pool", " pre", " pre pool"})))
 	}
 	args := func() string {
 		if n == 0 {
@@ -434,7 +485,7 @@ func genAR(rng *hx.Rng, n int) []string {
 	for i, steps := 0, 10+rng.Intn(12); i < steps; i++ {
 		switch x := rng.Intn(100); {
 		case x < 30 || hooks == 0:
-			ops = append(ops, fmt.Sprintf("ar hook %d %s%s", rng.Intn(ne), hx.Pick(rng, []string{"0", "0", "1", "3"}), hx.Pick(rng, []string{"", "", " sync", " pool", " inplace"})))
+			ops = append(ops, fmt.Sprintf("ar hook %d %s%s", rng.Intn(ne), hx.Pick(rng, []string{"0", "0", "1", "3"}), hx.Pick(rng, []string{"", "", " sync", " pool", " inplace", " pre", " pool pre", " inplace pre"})))
 			hooks++
 		case x < 38:
 			ops = append(ops, fmt.Sprintf("ar unhook %d", rng.Intn(hooks)))
